@@ -5,6 +5,12 @@ against it.  Everything happens in the check's scratch directory.
   root  = gen_std(ctx, tools)         -> scratch root holding gen/c/*.c and
                                          release/c/wuffs-unsupported-snapshot.c
   exe   = compile_driver(ctx, root, "stddrive.c", variant)   variant in VARIANTS
+
+The "checked build" (hook H3, internal/cgen/range_verif.go, Go build tag verif):
+  root  = gen_std(ctx, tools, range_assert=True)   -> a second scratch root whose C asserts the compiler's own
+                                                      ranges (MBounds) at run time; None if the working tree has no H3
+  exe   = compile_driver(ctx, root, "stddrive.c", "rangeassert")
+  range_sites(root)                    -> {kind: number of assertion sites} parsed from the generated site tables
 """
 import os, shutil, subprocess, concurrent.futures
 from vlib import ToolingError, REPO, VERIF
@@ -21,6 +27,9 @@ VARIANTS = {
     "o0": ("gcc", ["-O0"]),
     "tsan": ("gcc", ["-O1", "-g", "-fsanitize=thread"]),
     "clang_asan": ("clang", ["-O1", "-g", "-fsanitize=address,undefined", "-fno-sanitize=nonnull-attribute", "-fno-sanitize-recover=all"]),
+    # the checked build of H3: only meaningful with a root from gen_std(..., range_assert=True).  The driver installs
+    # the recorder (-DVERIF_RANGE) and the generated helpers count the assertions they evaluate.
+    "rangeassert": ("gcc", ["-O1", "-DVERIF_RANGE", "-DWUFFS_VERIF_RANGE_COUNT"]),
 }
 
 ASAN_ENV = {
@@ -36,7 +45,16 @@ def build_tools(ctx, names=("wuffs", "wuffs-c")):
     return tools
 
 
-def gen_std(ctx, tools, name="stdroot"):
+def has_range_hook():
+    """Whether the working tree carries hook H3 (the checked build of cgen)."""
+    return os.path.exists(os.path.join(REPO, "internal", "cgen", "range_verif.go"))
+
+
+def gen_std(ctx, tools, name="stdroot", range_assert=False):
+    if range_assert:
+        if not has_range_hook():
+            return None
+        name = name + "-range"
     root = ctx.subdir(name)
     if os.path.exists(os.path.join(root, "release", "c", "wuffs-unsupported-snapshot.c")):
         return root
@@ -44,6 +62,9 @@ def gen_std(ctx, tools, name="stdroot"):
     shutil.copy(os.path.join(REPO, "wuffs-root-directory.txt"), root)
     env = dict(ctx.env)
     env["PATH"] = os.path.dirname(tools["wuffs"]) + ":" + env.get("PATH", "")
+    env.pop("WUFFS_VERIF_RANGE", None)
+    if range_assert:
+        env["WUFFS_VERIF_RANGE"] = "1"   # read by the verif-tagged internal/cgen/range_verif.go
     r = subprocess.run([tools["wuffs"], "gen"], cwd=root, env=env, capture_output=True, text=True, timeout=600)
     snap = os.path.join(root, "release", "c", "wuffs-unsupported-snapshot.c")
     if r.returncode != 0 or not os.path.exists(snap):
@@ -51,7 +72,34 @@ def gen_std(ctx, tools, name="stdroot"):
         # properties about generated C cannot be exercised.  Not ours to call a
         # violation of a behavioural property; report as tooling error.
         raise ToolingError("`wuffs gen` failed on the working tree's std/:\n" + (r.stdout + r.stderr)[-3000:])
+    if range_assert and "wuffs_verif__sites__" not in open(snap, errors="replace").read():
+        raise ToolingError("the checked build's `wuffs gen` produced C without range assertions (is wuffs-c built with -tags verif?)")
     return root
+
+
+_SITE_RE = None
+
+
+def range_sites(root):
+    """{kind: count} and the total of the assertion sites in a checked-build root (parsed from the site tables that
+    cgen emits: one line `{"file", line, "func", "kind", "expr", "lo", "hi"},` per site)."""
+    import re
+    global _SITE_RE
+    if _SITE_RE is None:
+        q = r'"((?:[^"\\]|\\.)*)"'
+        _SITE_RE = re.compile(r'^\s*\{' + q + r', (\d+), ' + q + ', ' + q + ', ' + q + ', ' + q + ', ' + q + r'\},\s*$')
+    kinds = {}
+    intable = False
+    for line in open(os.path.join(root, "release", "c", "wuffs-unsupported-snapshot.c"), errors="replace"):
+        if line.startswith("static const wuffs_verif__site wuffs_verif__sites__"):
+            intable = True
+        elif intable and line.startswith("};"):
+            intable = False
+        elif intable:
+            m = _SITE_RE.match(line)
+            if m and m.group(1):
+                kinds[m.group(4)] = kinds.get(m.group(4), 0) + 1
+    return kinds
 
 
 def compile_driver(ctx, root, src, variant, out=None, extra=(), timeout=900):
